@@ -43,6 +43,9 @@ def number_cases(tab, quick, rnd):
     for d in ('0.1', '-2.50', '3.141592653589', '0.000000000001', '1234567890.0987654321', '1E+3', '12'):
         vals.append(('dec', F(d)))
         vals.append(('stddec', F(d)))
+    for d in ('1234567890.12345678901234567890123', '0.1234567890123456789012345678901234567', str(2 ** 100 + 1)):
+        vals.append(('stddec', F(d)))
+        vals.append(('dec', F(d)))
     floats = [0.1, -2.5, 1e-7, 5e-324, 2.2250738585072014e-308, 1.7976931348623157e308, 2.0 ** 52 + 1, (2 ** 53 - 1) * 2.0 ** -60,
               3.0 * 2.0 ** 970, 1 / 3, 1e22, 123456.789]
     for fl in floats:
